@@ -30,6 +30,9 @@ type Request struct {
 	// CtxState delivers the request with a context that is already "cancelled" or past its "deadline" (a client
 	// that hung up, an expired timeout middleware); "" = live. Not applied to fiber (app.Test copies the request).
 	CtxState string `json:"ctx_state,omitempty"`
+	// UnknownLength sends the body through a reader whose size the transport cannot know (Content-Length -1, as
+	// with chunked transfer or HTTP/2 streams).
+	UnknownLength bool `json:"unknown_length,omitempty"`
 }
 
 // Response is what one engine answered.
@@ -186,6 +189,7 @@ type Request struct {
 	ContentType string            ` + "`json:\"content_type\"`" + `
 	Verdicts    []int             ` + "`json:\"verdicts\"`" + `
 	CtxState    string            ` + "`json:\"ctx_state\"`" + `
+	UnknownLength bool            ` + "`json:\"unknown_length\"`" + `
 }
 
 type Response struct {
@@ -237,6 +241,12 @@ func build(engine string) (srv server, regErr string) {
 		app := fiber.New(fiber.Config{StrictRouting: true, CaseSensitive: true, DisableStartupMessage: true})
 		rfiber.RegisterRoutes(app)
 		return func(r *http.Request) (int, string) {
+			if r.ContentLength < 0 && r.Body != nil {
+				// app.Test serialises the request itself and cannot stream a body of unknown length: give it the bytes
+				b, _ := io.ReadAll(r.Body)
+				r.Body = io.NopCloser(bytes.NewReader(b))
+				r.ContentLength = int64(len(b))
+			}
 			resp, err := app.Test(r, -1)
 			if err != nil {
 				return -1, "fiber test error: " + err.Error()
@@ -259,6 +269,9 @@ func one(srv server, rq Request) (resp Response) {
 	var body io.Reader
 	if rq.Body != "" || rq.ContentType != "" {
 		body = bytes.NewBufferString(rq.Body)
+		if rq.UnknownLength {
+			body = struct{ io.Reader }{body} // hides the concrete type: the request's ContentLength becomes -1
+		}
 	}
 	req := httptest.NewRequest(rq.Verb, rq.URL, body)
 	if rq.ContentType != "" {
